@@ -1,71 +1,100 @@
-(* Model of the optimiser loop bookkeeping (property C01):
+(* Model of the optimiser loop bookkeeping (property C01; snapshot clause of C06):
    PopulationalOptimizer.optimise / _update_population / _log_to_history and the repaired
    RandomSearchOptimizer.optimise share this shape:
-      for every population handed to _update_population:  keeper.append(pop);
-          history.add_to_history(pop, label); history.add_to_archive_history(archive.items)
-      finally _update_population(archive.items, 'final_choices'); return [ind.graph for ind in archive.items]
+      for every population handed to _update_population:
+          keeper.append(pop)                       -- archive update (Archive/*.v, property C08)
+          history.add_to_history(pop, label)       -- stamps native generations (Evo/History.v)
+          history.add_to_archive_history(archive.items)
+      finally _update_population(archive.items, 'final_choices');
+      return [ind.graph for ind in archive.items]
    WHICH populations are produced (initial, extended, evolved ones, where the loop stops) is an
-   oracle: the list `pops`.  Definitions only.  Archive / keeper: Archive/*.v (property C08). *)
+   oracle: the list `pops`.  Definitions only.
+
+   Individuals are the records of Archive/Hof.v; identity = uid.  The field `ngen` of those
+   records is not used here: the native generation of an Individual object changes over time
+   (it is set when the population is recorded, AFTER the archive update), so the similarity test
+   of the Pareto front (_individuals_same) reads it from the history state of the moment. *)
 From Coq Require Import List Bool Arith QArith.
-From GolemV Require Import Fitness.Fitness Archive.Hof Archive.Pareto Archive.Keeper Evo.History.
+From GolemV Require Import Fitness.Fitness Archive.Hof Archive.Pareto Evo.History.
 Import ListNotations.
 Local Open Scope nat_scope.
 
-Definition set_ngen (n : nat) (x : indiv) : indiv :=
-  match ngen x with
-  | Some _ => x
-  | None => {| uid := uid x; fitness := fitness x; gclass := gclass x; ngen := Some n |}
-  end.
+(* generation_keeper._individuals_same at a moment when the native generations are `m` *)
+Definition sim_at (m : ngmap) (a b : indiv) : bool :=
+  f_eq (fitness a) (fitness b) && opt_nat_eqb (ng_lookup m (uid a)) (ng_lookup m (uid b)) &&
+  (gclass a =? gclass b).
 
-(* Generation(...) stamps native_generation on the recorded objects; the archive holds the same
-   objects, so members that were new in this population now carry the generation number *)
-Definition restamp (num : nat) (a : hof) : hof :=
-  {| keys := keys a; items := map (set_ngen num) (items a) |}.
+(* GenerationKeeper: ParetoFront(maxsize = keep_n_best * 5, similar = _individuals_same) for a
+   multi-objective objective, else HallOfFame(maxsize = keep_n_best) *)
+Definition pareto_cap (k : nat) : nat := k * 5.
 
-Record run := { r_keeper : keeper; r_gens : list (label * list indiv); r_snaps : list (list indiv) }.
+Definition arch_upd (multi : bool) (k : nat) (m : ngmap) (a : hof) (pop : list indiv) : hof :=
+  if multi then pf_update fitness f_worse f_dom f_eq (sim_at m) (pareto_cap k) a pop
+  else hof_upd k a pop.
 
-Definition run_init (n : nat) : run := {| r_keeper := keeper_init n; r_gens := []; r_snaps := [] |}.
+Record run := {
+  r_arch : hof;                              (* the keeper's archive *)
+  r_hist : hstate;                           (* history: generations (uids) + native generations *)
+  r_pops : list (label * list indiv);        (* the recorded populations themselves *)
+  r_snaps : list (list indiv) }.             (* archive snapshot recorded with each generation *)
 
-Definition update_population (kd : akind) (n : nat) (r : run) (call : label * list indiv) : run :=
-  let k1 := keeper_append kd n (r_keeper r) (snd call) in
-  let a := restamp (length (r_gens r)) (k_arch k1) in
-  {| r_keeper := {| k_arch := a; k_gen := k_gen k1; k_stag := k_stag k1; k_impr := k_impr k1 |};
-     r_gens := r_gens r ++ [(fst call, map (set_ngen (length (r_gens r))) (snd call))];
+Definition run_init : run :=
+  {| r_arch := empty_arch; r_hist := h_init; r_pops := []; r_snaps := [] |}.
+
+Definition update_population (multi : bool) (k : nat) (r : run) (call : label * list indiv) : run :=
+  let a := arch_upd multi k (ngs (r_hist r)) (r_arch r) (snd call) in
+  {| r_arch := a;
+     r_hist := add_to_history (r_hist r) (fst call, map uid (snd call));
+     r_pops := r_pops r ++ [call];
      r_snaps := r_snaps r ++ [items a] |}.
 
-Definition archive_items (r : run) : list indiv := items (k_arch (r_keeper r)).
+Definition loop (multi : bool) (k : nat) (pops : list (label * list indiv)) : run :=
+  fold_left (update_population multi k) pops run_init.
 
 (* optimise: all populations of the loop, then the final choices *)
-Definition optimise (kd : akind) (n : nat) (pops : list (label * list indiv)) : run :=
-  let r := fold_left (update_population kd n) pops (run_init n) in
-  update_population kd n r (LFinal, archive_items r).
+Definition optimise (multi : bool) (k : nat) (pops : list (label * list indiv)) : run :=
+  let r := loop multi k pops in
+  update_population multi k r (LFinal, items (r_arch r)).
 
-Definition result (r : run) : list nat := map gclass (archive_items r).
+Definition result (r : run) : list nat := map gclass (items (r_arch r)).
+
+(* did the capacity eviction of the Pareto front ever fire? (ghost) *)
+Fixpoint no_evict_from (k : nat) (r : run) (pops : list (label * list indiv)) : bool :=
+  match pops with
+  | [] => true
+  | c :: rest =>
+      pf_no_evict fitness f_worse f_dom f_eq (sim_at (ngs (r_hist r))) (pareto_cap k) (r_arch r) (snd c) &&
+      no_evict_from k (update_population true k r c) rest
+  end.
 
 (* ---------- what the harness observed on a real run ---------- *)
 Record orun := {
-  or_multi : bool; or_keep : nat; or_metrics : nat;
-  or_gens : list (label * list indiv);   (* recorded generations, members with their fitness, graph class
-                                            and the native generation they had when handed to the keeper *)
+  or_multi : bool; or_keep : nat;
+  or_gens : list (label * list indiv);   (* recorded generations: members with uid, fitness, graph class *)
   or_snaps : list (list nat);            (* uids of the archive snapshot recorded with each generation *)
   or_result : list nat;                  (* graph classes of the returned graphs, in order *)
-  or_verified : list bool }.             (* verifier verdict on each returned graph *)
+  or_verified : list bool;               (* verifier verdict on each returned graph *)
+  or_ng : list (nat * nat) }.            (* observed native generation of every recorded uid *)
 
-Definition nat_list_eqb := Keeper.nat_list_eqb.
-
-Definition all_but_last {A} (l : list A) : list A := removelast l.
+Fixpoint nat_list_eqb (a b : list nat) : bool :=
+  match a, b with
+  | [], [] => true
+  | x :: a', y :: b' => (x =? y) && nat_list_eqb a' b'
+  | _, _ => false
+  end.
 
 (* the model is driven with the recorded populations (all but the final one, which the model
    derives itself) *)
-Definition model_of (o : orun) : run :=
-  optimise (keeper_kind (or_multi o) (or_keep o)) (or_metrics o) (all_but_last (or_gens o)).
+Definition model_of (o : orun) : run := optimise (or_multi o) (or_keep o) (removelast (or_gens o)).
 
 Definition agree (o : orun) : bool :=
   let r := model_of o in
   forallb2 nat_list_eqb (map (map uid) (r_snaps r)) (or_snaps o) &&
   nat_list_eqb (result r) (or_result o) &&
   forallb2 (fun g g' => label_eqb (fst g) (fst g') && nat_list_eqb (map uid (snd g)) (map uid (snd g')))
-           (r_gens r) (or_gens o).
+           (r_pops r) (or_gens o) &&
+  forallb (fun un => match ng_lookup (ngs (r_hist r)) (fst un) with
+                     | Some n => n =? snd un | None => false end) (or_ng o).
 
 (* ---------- the property on the observed run, formulated without the archive model ---------- *)
 Definition last_gen (o : orun) : list indiv :=
@@ -99,4 +128,4 @@ Definition holds_b (o : orun) : bool :=
 
 (* was the Pareto capacity ever reached?  (then a dominator may have been evicted) *)
 Definition capacity_reached (o : orun) : bool :=
-  or_multi o && existsb (fun s => or_keep o * 5 <=? length s) (or_snaps o).
+  or_multi o && existsb (fun s => pareto_cap (or_keep o) <=? length s) (or_snaps o).
